@@ -391,6 +391,8 @@ func main() {
 		scens = c18Scenarios(r)
 	case "C11":
 		scens = c11Scenarios(r)
+	case "C05":
+		scens = c05Scenarios(r)
 	default:
 		hx.EngineError("unknown -prop %s", *prop)
 	}
@@ -410,8 +412,8 @@ func main() {
 					nf++
 				}
 			}
-			if strings.Contains(p.Desc, "timer") || nf > 0 {
-				fmt.Println(i, p.N, nf, p.Desc)
+			if nf > 0 {
+				fmt.Println(i, p.N, nf, p.Costs, p.Desc)
 			}
 		}
 		fmt.Println("points", len(x.Points), "outcome", x.Outcome, x.Failures, "keys", len(x.Keys))
@@ -423,7 +425,7 @@ func main() {
 			}
 			dup[k] = i
 		}
-		e := &simrt.Explorer{Cfg: sc.Cfg, Body: sc.Body, Bounds: simrt.Bounds{Total: 0}}
+		e := &simrt.Explorer{Cfg: sc.Cfg, Body: sc.Body, Bounds: simrt.Bounds{Preempt: 1, Total: 1}}
 		ts := e.Tasks()
 		fmt.Println("tasks", len(ts), "pruned", e.Pruned)
 		e2 := &simrt.Explorer{Cfg: sc.Cfg, Body: sc.Body, Bounds: simrt.Bounds{Total: 0}, NoPrune: true}
